@@ -500,6 +500,37 @@ class LoggerRig(object):
                     pass
 
 
+def disk_at_return(rig, wr0):
+    """what an INDEPENDENT reader (a second file handle: what survives the death of the process, os._exit / SIGKILL /
+    abort, or what `flogtool dump` of the incident directory sees during the trailing window) finds of the incident a
+    reporter created by the call that just returned -- before any turn of the reactor.  wr0 = the logger's reporter
+    weakref before the call (a new reporter gets a new weakref object).  None: the call created no reporter / no file."""
+    wr = getattr(rig.L, "active_incident_reporter_weakref", None)
+    if wr is None or wr is wr0:
+        return None
+    ir = wr()
+    if ir is None:
+        return None
+    fn = getattr(ir, "abs_filename", None)
+    del ir
+    if fn is None:
+        return None
+    if not os.path.exists(fn):
+        fn = fn + ".bz2"        # (a reporter that completes synchronously leaves only the compressed file)
+        if not os.path.exists(fn):
+            return None
+    out = dict(file=os.path.basename(fn), size=os.path.getsize(fn), header=None, events=[], error=None)
+    try:
+        for e in flogfile.get_events(fn):
+            if "header" in e:
+                out["header"] = view((e["header"] or {}).get("trigger"))
+            elif "d" in e:
+                out["events"].append(view(e["d"]))
+    except Exception as ex:
+        out["error"] = repr(ex)
+    return out
+
+
 BAD_CALLS = {
     # _msg raises before add_event
     "level-str": lambda cid: dict(level="high", cid=cid),
